@@ -15,6 +15,16 @@ cv_i64 dq_npop; cv_i64 gh_PK; cv_i8 *dq_pop_trk;   /* direct pops by the code: c
 cv_i64 dq_npush;                         /* direct pushes by the code                               */
 cv_i64 gh_n_resume; cv_i64 gh_RK; cv_i8 *gh_res_trk;   /* direct resumptions: count, tracked index, value */
 CH dq_front_slot, dq_back_slot;
+#ifdef CV_COUNT_X
+/* order-free accounting (C06): an arbitrary-but-fixed handle value gh_X; how often the code under verification DIRECTLY pushed it on
+ * the ready queue / resumed it.  (A fact proved for an arbitrary value holds for every value: multiset equality without quantifiers.) */
+cv_i8 *gh_X; cv_i64 dq_cntX, gh_rescntX;
+#define CV_COUNT_X_PUSH(v) do { if ((cv_i8 *)(v) == gh_X) { GH_NOWRAP(dq_cntX); dq_cntX++; } } while (0)
+#define CV_COUNT_X_RESUME(v) do { if ((cv_i8 *)(v) == gh_X) { GH_NOWRAP(gh_rescntX); gh_rescntX++; } } while (0)
+#else
+#define CV_COUNT_X_PUSH(v)
+#define CV_COUNT_X_RESUME(v)
+#endif
 int gh_env_may_dequeue = 1;              /* units may pin this to 0 where the documented protocol excludes it */
 #define DQ_WF ((gh_DK >= dq_tail || dq_trk != 0) && dq_head <= dq_tail && dq_tail < (1ul << 40) && dq_npop < (1ul << 40) && dq_npush < (1ul << 40) && gh_n_resume < (1ul << 40))
 #define DQ_LEN (dq_tail - dq_head)
@@ -40,6 +50,7 @@ void _ZNSt5dequeINSt7__n486116coroutine_handleIvEESaIS2_EE8pop_backEv(DQCH *d) {
   dq_tail--; }
 void _ZNSt5dequeINSt7__n486116coroutine_handleIvEESaIS2_EE9push_backERKS2_(DQCH *d, CH *h) {
   if (dq_tail == gh_DK) { __CPROVER_assert(h->_M_fr_ptr != 0, "only non-empty handles enter the ready queue (checked at the arbitrary tracked position)"); dq_trk = h->_M_fr_ptr; }
+  CV_COUNT_X_PUSH(h->_M_fr_ptr);
   GH_NOWRAP(dq_tail); GH_NOWRAP(dq_npush); dq_tail++; dq_npush++; gh_allocs += (nondet_bool() ? 1 : 0); /* a deque may allocate a node on push (C20 finding) */ }
 void _ZNSt5dequeINSt7__n486116coroutine_handleIvEESaIS2_EE9push_backEOS2_(DQCH *d, CH *h) {
   _ZNSt5dequeINSt7__n486116coroutine_handleIvEESaIS2_EE9push_backERKS2_(d, h); }
@@ -58,6 +69,7 @@ void cv_env_coroutine_runs(void) {
 }
 void _ZNKSt7__n486116coroutine_handleIvE6resumeEv(CH *h) {
   if (gh_n_resume == gh_RK) { __CPROVER_assert(h->_M_fr_ptr != 0, "resume() of an empty coroutine handle (checked at the arbitrary tracked index)"); gh_res_trk = h->_M_fr_ptr; }
+  CV_COUNT_X_RESUME(h->_M_fr_ptr);
   GH_NOWRAP(gh_n_resume); gh_n_resume++;
   cv_env_coroutine_runs();
 }
